@@ -2,10 +2,14 @@ package c06
 
 import (
 	"bytes"
+	"context"
 	"encoding/binary"
 	"fmt"
 
+	"github.com/cloudwego/dynamicgo/conv"
+	"github.com/cloudwego/dynamicgo/conv/t2j"
 	"github.com/cloudwego/dynamicgo/thrift"
+	"github.com/cloudwego/dynamicgo/thrift/base"
 	"github.com/cloudwego/dynamicgo/thrift/generic"
 
 	"verif/engine/core"
@@ -391,3 +395,93 @@ func depthClass(d int) string {
 }
 
 var _ = generic.Options{}
+
+// ---------- thrift base (response base taken out of the message into the caller's *base.BaseResp) ----------
+
+const baseRespIDL = `namespace go verif
+include "base.thrift"
+struct Req {
+  1: string msg
+  255: base.Base Base
+}
+struct Resp {
+  1: string msg
+  255: base.BaseResp BaseResp
+}
+service Svc {
+  Resp M(1: Req req)
+}
+`
+
+const baseIncIDL = `namespace go base
+struct TrafficEnv {
+    1: bool Open = false,
+    2: string Env = "",
+}
+struct Base {
+    1: string LogID = "",
+    2: string Caller = "",
+    3: string Addr = "",
+    4: string Client = "",
+    5: optional TrafficEnv TrafficEnv,
+    6: optional map<string, string> Extra,
+}
+struct BaseResp {
+    1: string StatusMessage = "",
+    2: i32 StatusCode = 0,
+    3: optional map<string, string> Extra,
+}
+`
+
+var baseRespDescCache *thrift.TypeDescriptor
+
+func baseRespDesc() (*thrift.TypeDescriptor, error) {
+	if baseRespDescCache != nil {
+		return baseRespDescCache, nil
+	}
+	svc, err := thrift.Options{EnableThriftBase: true}.NewDescritorFromContent(context.Background(), "a/b/main.thrift", baseRespIDL, map[string]string{"a/b/base.thrift": baseIncIDL}, false)
+	if err != nil {
+		return nil, err
+	}
+	baseRespDescCache = svc.Functions()["M"].Response().Struct().FieldById(0).Type()
+	return baseRespDescCache, nil
+}
+
+// baseRespSeeds: Resp{1:"m", 255:BaseResp{1:"ok", 2:7, 3:{"k":"v"}}} and the same without Extra.
+func baseRespSeeds() []*tseed {
+	str := tbin.Sc(tbin.STRING)
+	brS := tbin.StructS(tbin.SField{ID: 1, Name: "StatusMessage", S: str}, tbin.SField{ID: 2, Name: "StatusCode", S: tbin.Sc(tbin.I32)}, tbin.SField{ID: 3, Name: "Extra", S: tbin.MapS(str, str), Req: 2})
+	root := tbin.StructS(tbin.SField{ID: 1, Name: "msg", S: str}, tbin.SField{ID: 255, Name: "BaseResp", S: brS})
+	extra := &tbin.Val{T: tbin.MAP, KT: tbin.STRING, ET: tbin.STRING, K: []*tbin.Val{tbin.Str("k")}, L: []*tbin.Val{tbin.Str("v")}}
+	full := tbin.Struct(tbin.F(1, tbin.Str("m")), tbin.F(255, tbin.Struct(tbin.F(1, tbin.Str("ok")), tbin.F(2, tbin.I32v(7)), tbin.F(3, extra))))
+	bare := tbin.Struct(tbin.F(1, tbin.Str("m")), tbin.F(255, tbin.Struct(tbin.F(1, tbin.Str("ok")), tbin.F(2, tbin.I32v(7)))))
+	return []*tseed{
+		{name: "Resp{1:msg,255:BaseResp{msg,code,extra}}", shape: root, val: full, ref: tbin.Bytes(full)},
+		{name: "Resp{1:msg,255:BaseResp{msg,code}}", shape: root, val: bare, ref: tbin.Bytes(bare)},
+	}
+}
+
+func baseRespOps() []top {
+	mk := func(name string, withCtx bool, o conv.Options) top {
+		return top{name: name, struct_: true, run: func(sd *tseed, in []byte) string {
+			d, err := baseRespDesc()
+			if err != nil {
+				return "harness-idl"
+			}
+			c := context.Background()
+			var br *base.BaseResp
+			if withCtx {
+				br = base.NewBaseResp()
+				c = context.WithValue(c, conv.CtxKeyThriftRespBase, br)
+			}
+			cv := t2j.NewBinaryConv(o)
+			_, err = cv.Do(c, d, in)
+			obs(br)
+			return errClass(err)
+		}}
+	}
+	return []top{
+		mk("t2j.BinaryConv.Do(thriftBase,ctx BaseResp)", true, conv.Options{EnableThriftBase: true}),
+		mk("t2j.BinaryConv.Do(thriftBase,no ctx)", false, conv.Options{EnableThriftBase: true}),
+	}
+}
